@@ -2,6 +2,7 @@ package main
 
 import (
 	"fmt"
+	"os"
 	"regexp"
 	"go/ast"
 	"go/constant"
@@ -354,6 +355,14 @@ func (env *specEnv) lookupIdent(name string) (sval, bool) {
 						return v, true
 					}
 				}
+			}
+		}
+	}
+	// ghost variables of the top-level contract
+	if top := env.eng.topFrame; top != nil && top.con != nil {
+		for _, g := range top.con.Ghosts {
+			if g == name {
+				return sval{t: env.eng.get(env.st, env.eng.comp("$g$"+g, "Bool")), typ: tBool}, true
 			}
 		}
 	}
@@ -896,7 +905,7 @@ func shortPat(n string) string {
 	return b.String()
 }
 
-var utilAliasRe = regexp.MustCompile(`\b([a-z]+?)utils?\.`)
+var utilAliasRe = regexp.MustCompile(`\b(node|pod|nodeclaim|nodepool|volume|disruption|pdb|resources?|termination|daemonset)utils?\.`)
 
 func patMatches(pat, name string) bool {
 	if pat == name {
@@ -932,6 +941,9 @@ func (fr *Frame) findDominatingCall(pat string) *CallRec {
 					continue
 				}
 			} else if !r.Block.Dominates(tf.curBlock) {
+				if os.Getenv("KVC_DEBUG") != "" {
+					fmt.Fprintf(os.Stderr, "nondom: %s at block %d (fn %s) vs current block %d (fn %s)\n", r.Name, r.Block.Index, r.Block.Parent().Name(), tf.curBlock.Index, tf.curBlock.Parent().Name())
+				}
 				continue
 			}
 		}
